@@ -18,7 +18,7 @@ TECHNIQUE = "controlled-scheduler exploration (deviation-bounded) of the real as
 RULE = ("scenario = driver x 1-3 callers, each (command kind, bus outcome) with kinds {non-query, yes/no, numeric, bitmap, generic, "
         "device-type query, send-twice, 24-bit query, 24-bit send-twice} and outcomes {silent, 0, 1, 0x42, 254, 255, framing error}; "
         "all schedules with <= d deviations (a timer deviation = the answer arrives late); Tridonic also two sends in flight inside "
-        "one transaction and duplicate reports; sync drivers: all kinds x all outcomes with scripted replies; "
+        "one transaction and duplicate reports; three queued callers with the middle one cancelled at every boundary; sync drivers: all kinds x all outcomes with scripted replies; "
         "states = distinct (scenario, results) observations, transitions = scheduler events")
 ASSUMPTIONS = [
     "gateway models keep the ground-truth outcome of every transmitted frame; each caller uses its own short address so answers identify their owner",
@@ -70,7 +70,7 @@ def make_world(driver, callers_spec, mode="plain", dup=False):
             for i, c in enumerate(cmds):
                 async def co(w, c=c):
                     return await w.driver.send(c)
-                callers.append(Caller(f"c{i + 1}", co))
+                callers.append(Caller(f"c{i + 1}", co, cancellable=(mode == "cancelmid" and i == 1)))
         if driver in ("tridonic", "hasseb"):
             from dalimc.aio.hidworld import HidWorld
             w = HidWorld(driver, bus, callers)
@@ -80,6 +80,7 @@ def make_world(driver, callers_spec, mode="plain", dup=False):
             w = SerialWorld(driver, bus, callers)
         w.cmds = cmds
         w.timer_budget = 8
+        w.eager_start = (mode == "cancelmid")     # all callers queued back to back; the middle one may be cancelled
         return w
     return make
 
@@ -119,6 +120,12 @@ def judge_result(res, driver, kind, out, cmd, result, strict, case, who, others=
             # first is the recorded protocol-inherent finding: (a) the late answer reached the driver AFTER
             # this caller had been started (it slipped in behind the pre-send flush); (b) it was already
             # there before this caller started - then the flush should have removed it.
+            if case.get("__cancelled_out__") is not None and got == tuple(case["__cancelled_out__"]):
+                # the answer to the command of the caller that was CANCELLED while its query was on the bus
+                add_violation(res, f"C16:{driver}:answer-of-cancelled-command",
+                              f"{driver} send({kind}): bus outcome for this command was {out}, but the caller was handed {got}, the answer to the "
+                              f"command of the caller that had been cancelled while waiting for it ({who})", case)
+                return "stale-cancelled"
             if case.get("__late_before_start__"):
                 add_violation(res, f"C16:{driver}:stale-answer-not-flushed",
                               f"{driver} send({kind}): handed {got}, another command's answer that had arrived BEFORE this send started "
@@ -167,6 +174,8 @@ def judge(res, driver, spec, mode, w, obs, strict):
                 case["__late_before_start__"] = True
             # "answer reported as no answer" is tolerated only when a gateway report really was overtaken by a
             # timer after this caller had been started - not for any other deviation
+            if mode == "cancelmid" and i != 1 and obs["callers"][1][0] == "cancelled":
+                case["__cancelled_out__"] = list(spec[1][1])
             lbl = f"start:c{i + 1}"
             ts = w.trace.index(lbl) if lbl in w.trace else -1
             if any(p > ts for p in w.late_timers):
@@ -175,6 +184,8 @@ def judge(res, driver, spec, mode, w, obs, strict):
                 outs.append(judge_result(res, driver, kind, out, cmd, oc[1], strict, case, f"caller {i + 1} of {len(spec)}", others))
             elif oc[0] == "raised":
                 outs.append(judge_result(res, driver, kind, out, cmd, oc, strict, case, f"caller {i + 1} of {len(spec)}"))
+            elif oc[0] == "cancelled" and mode == "cancelmid" and i == 1 and any(x == "cancel:c2" for x in w.trace):
+                outs.append("cancelled")
             else:
                 add_violation(res, f"C16:{driver}:{kind}:caller-{oc[0]}", f"{driver} {spec}: caller {i + 1} is {oc[0]} at quiescence", case)
                 outs.append(oc[0])
@@ -334,6 +345,9 @@ def shards(tier):
             out.append(("triple", drv, tr, 1 if tier == "quick" else 2))
     for ka, kb in [("num", "num"), ("num", "dt"), ("twice", "num"), ("q24", "num"), ("yn", "gen"), ("off", "num")]:
         out.append(("trx2", ka, kb, 2 if tier == "quick" else 3))
+    for drv in DRIVERS:
+        for tr in (("num", "num", "num"), ("num", "yn", "dt"), ("dt", "num", "bits"), ("twice", "num", "num")):
+            out.append(("cancelmid", drv, tr, 1 if tier == "quick" else 2))
     out.append(("dup", 2 if tier == "quick" else 3))
     out.append(("sync",))
     return out
@@ -373,6 +387,11 @@ def run_shard(shard):
         for oc in ((("value", 1), ("value", 2), ("value", 3)), (("none",), ("value", 9), ("err",))):
             outs |= {(tr, oc, o) for o in _explore(res, drv, list(zip(tr, oc)), "plain", bound)}
         sample(res, {"driver": drv, "triple": list(tr), "bound": bound})
+    elif k == "cancelmid":
+        _, drv, tr, bound = shard
+        for oc in ((("value", 1), ("value", 2), ("value", 3)), (("none",), ("value", 9), ("value", 0x42))):
+            outs |= {(tr, oc, o) for o in _explore(res, drv, list(zip(tr, oc)), "cancelmid", bound)}
+        sample(res, {"driver": drv, "middle_caller_cancelled": list(tr), "bound": bound})
     elif k == "trx2":
         _, ka, kb, bound = shard
         for oa, ob in OUT_PAIRS:
